@@ -4,6 +4,7 @@ C07 — operations never touch third-party balances and conserve token totals.
 the pair contracts and the router, and the LP token address of the addressed pair.
 -/
 import Halo.Proofs.C07
+import Halo.Proofs.Flows
 
 namespace Halo.Props.C07
 open Halo
@@ -18,6 +19,13 @@ theorem step_frame {name : Asset → String} {w w' : World} {op : Op} {out : Out
 theorem failed_step_frame {name : Asset → String} {w : World} {op : Op} {e : Err}
     (h : exec name w op = .error e) : step name w op = w := by
   unfold step; rw [h]
+
+/-- "the designated receiver's balances can only increase" — in fact every account other than the actor, the pair
+contracts and the router (so also every receiver that is not itself one of those) loses nothing in any asset -/
+theorem receiver_never_loses {name : Asset → String} {w w' : World} {op : Op} {out : Out}
+    (hf : FreshOK w op) (h : exec name w op = .ok (w', out)) (a : Asset) (z : Nat)
+    (hz : z ≠ actorOf op) (hp : w.pair z = none) (hr : z ≠ w.router) : bal w a z ≤ bal w' a z :=
+  Halo.Flows.never_lose hf h a z hz hp hr
 
 /-- allowances of bystanders are never consumed: only the owner of an allowance (by granting) and the
 spender it was granted to — here always the pair pulling the caller's own deposit — change it -/
